@@ -6,6 +6,7 @@ import (
 	"flag"
 	"fmt"
 	"os"
+	"runtime"
 	"testing"
 	"time"
 
@@ -112,6 +113,17 @@ func TestWorker(t *testing.T) {
 			}
 		}
 		fmt.Printf("DONE idx=%d\n", idx)
+		// goroutines of finished bubbles stay parked for the life of the process (they must never touch a later
+		// run), so a worker's memory only grows: hand over to a fresh process before it gets large
+		if *fPlan == "" && i%8 == 7 {
+			var ms runtime.MemStats
+			runtime.ReadMemStats(&ms)
+			if ms.Sys > 1500<<20 {
+				fmt.Printf("RECYCLE next=%d\n", i+1)
+				os.Stdout.Sync()
+				break
+			}
+		}
 		if *fPlan != "" {
 			b, _ := json.Marshal(rec.Result)
 			fmt.Printf("RESULT %s\n", b)
